@@ -100,3 +100,12 @@ PROJ = {
     'C28': ALL,
     'C29': dict(frames='len', events=[], enc=False, st=[2], res=True),
 }
+
+# per-stream peek sub-fields compared (0 sid, 1 state, 2 closed_by, 3 out_win, 4 in_win, 5 in_max, 6 flags,
+# 7 expected content length, 8 actual content length); None = all, [] = none
+SS = {
+    'C01': None, 'C21': None, 'C25': None, 'C28': None,
+    'C03': [0, 1, 3], 'C04': [0, 1, 4, 5], 'C05': [0, 1, 4, 5], 'C06': [0, 1, 2, 6], 'C07': [0, 1, 6], 'C08': [0, 1, 6],
+    'C09': [0, 1], 'C10': [0, 1], 'C11': [0, 3, 4, 5], 'C12': [0, 3], 'C16': [0, 1, 7, 8], 'C19': [0, 1], 'C20': [0, 1, 2],
+    'C22': [0, 1, 6], 'C23': [0, 1, 3, 4], 'C24': [0, 1, 6], 'C27': [0], 'C29': [],
+}
